@@ -201,6 +201,8 @@ func main() {
 		cmdMemio()
 	case "cpmglue":
 		cmdCPMGlue()
+	case "memkinds":
+		cmdMemKinds()
 	case "par":
 		cmdPar(os.Args[2:])
 	case "ctx":
